@@ -106,6 +106,7 @@ def hist_cases(draw, tier):
         "max_ops": 5,
         "makedirs": True,
         "ext": True,
+        "depth": draw(st.sampled_from([3, 3, 4])),
         "weights": {"ext_create": 2, "ext_mkdir": 1, "ext_write": 2, "ext_unlink": 1, "ext_rmtree": 1, "ext_rename": 1, "move_out": 5},
     }
     h = draw(fsops.histories(opts))
